@@ -57,7 +57,7 @@ def analyse_alloc(I, fname, sz, A, n):
         size = args[0]
         if size[0] != "const":
             return UNDECIDED, "malloc size not constant: %s" % T.show(size, 3), rule, None, None
-        raw = [x for x in (T.opaque(64, "call:malloc", size),)][0]
+        raw = irterm.malloc_result("malloc", [size])
         if R is raw:
             if A > 16:
                 return REFUTED, "plain malloc result returned for alignment %d > alignof(max_align_t)" % A, rule, {"n": n}, None
@@ -67,31 +67,41 @@ def analyse_alloc(I, fname, sz, A, n):
                 return UNDECIDED, "unexpected memory access on the malloc path", rule, None, None
             info["path"] = "malloc"
             return HOLDS, "malloc(%d) returned directly (alignment %d <= 16)" % (size[2], A), rule, None, info
-        # over-allocation path
-        if size[2] < need + (A - 1) + 8:
-            return REFUTED, "over-allocation malloc(%d) < n*sizeof(T) + (A-1) + sizeof(size_t) = %d" % (
-                size[2], need + A - 1 + 8), rule, {"n": n}, None
+        # over-allocation path.  malloc returns storage aligned to alignof(max_align_t) = 16, so aligning
+        # up to A moves the pointer by at most A - 16 bytes.
+        slack = max(A - 16, 0)
         k = A.bit_length() - 1
         if not T.is_zero(T.slice_(R, 0, k)):
             return REFUTED if R[0] != "select" else UNDECIDED, "returned pointer not provably %d-aligned: %s" % (A, T.show(R, 4)), rule, {"n": n}, None
-        if T.ubound(T.sub(R, raw)) is None or T.ubound(T.sub(R, raw)) > A - 1:
+        ub = T.ubound(T.sub(R, raw))
+        if ub is None or ub > A - 1:
             return UNDECIDED, "aligned - raw not bounded by A-1: %s" % T.show(T.sub(R, raw), 4), rule, None, None
+        if size[2] < need + slack:
+            return REFUTED, "over-allocation malloc(%d) cannot hold %d element bytes after aligning up by as much as %d" % (
+                size[2], need, slack), rule, {"n": n, "malloc_result_mod_A": 16 if A > 16 else 0}, None
         ws = [a for a in S.accesses if a.kind == "w"]
         if len(ws) != 1:
             return REFUTED, "%d bookkeeping stores (expected 1)" % len(ws), rule, {"n": n}, None
         w = ws[0]
-        if not (w.base is R and w.off == need and w.size == 8):
-            return REFUTED, "bookkeeping store at %s%+d size %s, expected aligned+%d size 8" % (
-                T.show(w.base, 3), w.off, w.size, need), rule, {"n": n}, None
+        if not (w.base is R and w.size == 8):
+            return REFUTED, "bookkeeping store at %s%+d size %s, expected an 8-byte word after the elements" % (
+                T.show(w.base, 3), w.off, w.size), rule, {"n": n}, None
+        if w.off < need:
+            return REFUTED, "bookkeeping word at aligned+%d overlaps the %d element bytes" % (w.off, need), rule, {"n": n}, None
+        if slack + w.off + 8 > size[2]:
+            return REFUTED, ("bookkeeping word at aligned+%d..+%d can lie beyond the malloc(%d) block when malloc's result is "
+                             "%d mod %d (aligned = raw+%d)" % (w.off, w.off + 8, size[2], 16 % A if A > 16 else 0, A, slack)), rule, {
+                                 "n": n, "sizeof_T": sz, "malloc_result_mod_A": 16}, None
         if w.value is None or T.sub(R, w.value) is not raw:
             return REFUTED, "bookkeeping word is %s, not aligned-raw" % T.show(w.value, 4), rule, {"n": n}, None
-        if w.align and (need % w.align) != 0:
+        if w.align and (w.off % w.align) != 0:
             return REFUTED, ("bookkeeping word stored with a typed align-%d store at aligned+%d: misaligned "
-                             "(provable alignment %d)" % (w.align, need, need & -need if need else A)), rule, {
-                                 "n": n, "sizeof_T": sz, "note": "n*sizeof(T) is not a multiple of sizeof(size_t)"}, None
+                             "(provable alignment %d)" % (w.align, w.off, w.off & -w.off if w.off else A)), rule, {
+                                 "n": n, "sizeof_T": sz, "note": "the offset is not a multiple of the claimed alignment"}, None
+        need_off = w.off
         info["path"] = "overalloc"
-        info["book_off"] = need
-        return HOLDS, "malloc(%d), result aligned to %d, offset word at aligned+%d" % (size[2], A, need), rule, None, info
+        info["book_off"] = need_off
+        return HOLDS, "malloc(%d), result aligned to %d, offset word at aligned+%d" % (size[2], A, need_off), rule, None, info
     if nm == "aligned_alloc":
         al, size = args
         if al[0] != "const" or size[0] != "const":
@@ -144,15 +154,17 @@ def analyse_dealloc(I, fname, sz, A, n, path, book_off):
             return HOLDS, "free(p)", rule, None
         return REFUTED, "frees %s although allocate returned the primitive's pointer unchanged" % T.show(arg, 4, ["p", "n"]), rule, {"n": n}
     # over-allocation
-    M = T.mem(p, n * sz, 64)
+    rd = [a for a in S.accesses if a.kind == "r" and a.base is p]
+    if len(rd) != 1 or rd[0].size != 8:
+        return REFUTED, "expected one 8-byte read of the offset word, found %s" % [(a.off, a.size) for a in rd], rule, {"n": n}
+    roff = rd[0].off
+    M = T.mem(p, roff, 64)
     if T.add(arg, M) is p or arg is T.sub(p, M) or (arg[0] == "add" and set(map(id, arg[2:])) == {id(p), id(T.neg(M))}):
-        rd = [a for a in S.accesses if a.kind == "r" and a.base is p]
-        for a in rd:
-            if a.align and a.align > 1 and (n * sz) % a.align:
-                return REFUTED, "offset word read with an align-%d load at p+%d" % (a.align, n * sz), rule, {"n": n}
-        if book_off != n * sz:
-            return REFUTED, "offset word read at p+%d but written at aligned+%d" % (n * sz, book_off), rule, {"n": n}
-        return HOLDS, "free(p - *(size_t*)(p+%d)) with a byte-wise read" % (n * sz), rule, None
+        if rd[0].align and rd[0].align > 1 and roff % rd[0].align:
+            return REFUTED, "offset word read with an align-%d load at p+%d" % (rd[0].align, roff), rule, {"n": n}
+        if book_off != roff:
+            return REFUTED, "offset word read at p+%d but written at aligned+%d" % (roff, book_off), rule, {"n": n}
+        return HOLDS, "free(p - *(size_t*)(p+%d))" % roff, rule, None
     return REFUTED, "frees %s" % T.show(arg, 5, ["p", "n"]), rule, {"n": n}
 
 
